@@ -119,6 +119,32 @@ theorem c02_fs_write_frame (v : Model.Fs.Vol) (count : Nat) (s' : Model.Fs.St) (
     Model.Fs.contentOf (Model.Fs.writeData v.bpc data f'.chain size pos bs) g = Model.Fs.contentOf data g :=
   Proofs.FsData.fs_write_frame h data f' g hf hg hne size pos bs
 
+/-! ### known finding D17c, stated formally
+
+`InDomain` restricts `c01_fs_step` / the refinement of `fwrite` to writes that start inside the file.  Outside
+that domain the model — which follows the code: `seek` clamps the target to the size — and the reference part
+ways; this is the recorded finding, not a gap of the proof: -/
+
+/-- witness: an empty file, three bytes written at position 5.  pyfatfs (the model) puts them at the end: size 3.
+    The reference filesystem, like any byte buffer, zero-fills the gap: size 8. -/
+theorem c02_d17c_witness :
+    let v : Model.Fs.Vol := ⟨Model.Alloc.params 12, 8, 512, true, 512, 1⟩
+    let s0 : Model.Fs.St := ⟨[4088, 4095, 0, 0, 0, 0, 0, 0], 0, [], [], [4088, 4095, 0, 0, 0, 0, 0, 0], []⟩
+    let s1 := (Model.Fs.step v s0 (.create [3] 1 false)).1
+    ((Model.Fs.step v s1 (.fwrite [3] 5 3)).1.nodes.map (·.size) = [3]) ∧
+    ((Model.Fs.specStep (Model.Fs.abs s1) (.fwrite [3] 5 3)).1.map (·.size) = [8]) ∧
+    ¬ Proofs.FsRefine.InDomain s1 (.fwrite [3] 5 3) := by
+  refine ⟨by decide, by decide, ?_⟩
+  intro h
+  have := h ⟨[3], 0, 3, false, [], 0, 1⟩ (by decide) rfl
+  simp at this
+
+/-- in general: a write beyond the end behaves exactly like the same write at the end -/
+theorem c02_write_beyond_eof_is_write_at_eof (bpc size pos : Nat) (h : size ≤ pos) :
+    seekCursor bpc size pos = seekCursor bpc size size := by
+  unfold seekCursor
+  simp [Nat.min_eq_right h]
+
 /-- frame: two different clusters never overlap on the device -/
 theorem c02_frame_clusters (b : Model.Geom.Bpb) (v : b.Valid) (c d : Nat) (hc : 2 ≤ c) (hcd : c < d) :
     b.clusterOffset c + b.bytesPerCluster ≤ b.clusterOffset d := Proofs.Geom.cluster_disjoint b v c d hc hcd
